@@ -106,7 +106,9 @@ def action (d : Dev) (alias name : S) : Option Svc :=
 def anyAction (d : Dev) (aliases : List S) (name : S) : Option Svc :=
   aliases.findSome? fun a => action ord T d a name
 
-/-- the service a facade method sends its request to (`none` = "not available") -/
+/-- the service a facade method sends its request to (`none` = "not available"): a function of the
+    tables, the offered services and the operation alone — no availability flag, no subscription
+    state, no history -/
 def route (d : Dev) (r : OpRow) : Option Svc := anyAction ord T d r.aliases r.action
 end
 
